@@ -75,6 +75,12 @@ template <int S> struct Runner {
       for (int i = 0; ok && i <= N; ++i) for (int k = 0; k < S; ++k) { auto a = A.getTrajectory().evaluate(cm[i], k), b = reused.getTrajectory().evaluate(cm[i], k); ok = ok && bits_equal(a.data(), b.data(), D); }
       if (!ok) fail("route-reused-object", p, "update() on an object that held another problem (and was evaluated) differs from a fresh construction");
     }
+    // route 6: an object that first held a LARGER problem (two more segments, other last duration), was fully queried, and was then updated to
+    //          this one (seeded change C01-m12: per-segment table only ever grown, its last entry read with back())
+    for (int v = 0; v < 2; ++v) { Sp h = build_with_history<S, D>(q, v); ++c.st.comparisons;
+      bool okh = mat_bits_equal(h.getTrajectory().getCoefficients(), A.getTrajectory().getCoefficients()) && h.getTrajectory().getBreakpoints() == A.getTrajectory().getBreakpoints() && h.getNumSegments() == N;
+      for (int k = 0; okh && k < S; ++k) { auto a = A.getTrajectory().evaluate(A.getEndTime(), k), b = h.getTrajectory().evaluate(h.getEndTime(), k); okh = bits_equal(a.data(), b.data(), D); }
+      if (!okh) { fail("route-shrunk-object", p, "a spline that held a larger problem before differs from a fresh construction (coefficients / knots / end state)"); break; } }
     // bookkeeping on every route
     double tmax = std::max(std::fabs(tp.front()), std::fabs(tp.back()));
     double ttol = exact ? 0.0 : 4.0 * N * ulp_of(tmax);
@@ -204,7 +210,8 @@ template <int S> static void explore(Ctx &c, long &id) {
   const bool th = c.args.thorough();
   const int Nmax3 = th ? 8 : 5;
   std::vector<double> sigmas = th ? std::vector<double>{0.125, 1.0, 8.0} : std::vector<double>{1.0};
-  std::vector<double> t0s = th ? std::vector<double>{0.0, -2.5, 1024.125, 1048576.25} : std::vector<double>{0.0, -2.5, 1024.125};
+  // -3.7 is neither dyadic nor representable in single precision (seeded change C01-m11: a start-time parameter narrowed to float)
+  std::vector<double> t0s = th ? std::vector<double>{0.0, -2.5, 1024.125, 1048576.25, -3.7} : std::vector<double>{0.0, -3.7, 1024.125};
   // alphabet 0: dyadic letters; alphabet 1 (thorough): seed-derived non-dyadic jitter, ratio kept <= R
   for (int alpha = 0; alpha < 3; ++alpha) {
     if (alpha == 1 && !th) continue;
@@ -226,7 +233,7 @@ template <int S> static void explore(Ctx &c, long &id) {
         std::vector<double> T(N);
         { long ww = w; for (int i = 0; i < N; ++i) { int l = ww % base; ww /= base; T[i] = (base == 3 ? L[l] : (l == 0 ? L[0] : L[2])) * sigmas[si]; } }
         Runner<S> r(c, unit);
-        r.run_case(N, T, t0s[ti], alpha == 0, si == 0 && ti == 0);
+        r.run_case(N, T, t0s[ti], alpha == 0 && t0s[ti] != -3.7, si == 0 && ti == 0);
         ++c.st.evaluations;
         std::string key = fmt("S%d/a%d/N%d/w%ld/s%zu/t%zu", S, alpha, N, w, si, ti);
         if (!c.st.seen(key) && N >= 2) ++c.st.nontrivial;
